@@ -46,7 +46,7 @@ def plan(seed, subbatch):
             faults["halt"] = {"p": cfg.choice((0.01, 0.03)), "min": 3 * per_bucket,
                               "max": cfg.choice((10, 200)) * per_bucket}
         if "dup" in kinds:
-            faults["dup"] = {"p": cfg.choice((0.03, 0.1))}
+            faults["dup"] = {"p": cfg.choice((0.03, 0.1)), "exact": cfg.choice((0.0, 0.3, 0.6))}
         if "jitter" in kinds:
             faults["jitter"] = {"p": cfg.choice((0.05, 0.3))}
         if "offset" in kinds and base_s > 1:
